@@ -259,6 +259,11 @@ func (a *DateArg) Parse() error {
 	if len(str) != 10 {
 		return ErrInval
 	}
+	for i, c := range str {
+		if (i == 4 || i == 7) != (c == '-') || (c != '-' && (c < '0' || c > '9')) {
+			return ErrInval
+		}
+	}
 
 	/* 4DIGIT */
 	i = strings.Index(str, "-")
